@@ -223,3 +223,119 @@ Section Proofs.
     destruct (fst (block_loop k 0 n [])); cbn; exact H.
   Qed.
 End Proofs.
+
+(* ---------- K20c: a cache that transform consults, keyed by an auxiliary argument ---------- *)
+Section ProofsC.
+  Variables data model out aux cost : Type.
+  Variable fitf : dict -> data -> model.
+  Variable costf : model -> aux -> cost.
+  Variable outc : model -> dict -> data -> aux -> cost -> out.
+  Variable norm : data -> data.
+  Variable cachef : data -> nat.
+  Variable valid : aux -> aux -> bool.
+
+  Notation cworld := (cworld model aux cost).
+  Notation transform_c := (transform_c data model out aux cost costf outc norm cachef valid).
+  Notation fit_c := (fit_c data model aux cost fitf norm cachef).
+  Notation run_history_c := (run_history_c data model out aux cost costf outc norm cachef valid).
+  Notation single_c := (single_c data model out aux cost costf outc norm cachef valid).
+  Notation cost_used := (cost_used model aux cost costf valid).
+  Notation clear := (clear model aux cost).
+  Notation mdl_of cw := (e_model model (w_est model (c_w model aux cost cw))).
+
+  (* the validity test is sound: a cached value it accepts is the value that would be computed *)
+  Definition sound : Prop := forall mdl a0 a, valid a0 a = true -> costf mdl a0 = costf mdl a.
+
+  (* the cache holds what costf gives for the fitted model and the argument it was made for *)
+  Definition cache_ok (cw : cworld) : Prop :=
+    match c_kc model aux cost cw with
+    | None => True
+    | Some (a0, v) => forall mdl, mdl_of cw = Some mdl -> v = costf mdl a0
+    end.
+
+  Lemma cost_used_ok (cw : cworld) mdl a : sound -> cache_ok cw -> mdl_of cw = Some mdl ->
+    cost_used mdl (c_kc model aux cost cw) a = costf mdl a.
+  Proof.
+    intros Hs Hc Hm. unfold K20_History.cost_used, cache_ok in *.
+    destruct (c_kc model aux cost cw) as [[a0 v]|]; [|reflexivity].
+    destruct (valid a0 a) eqn:E; [|reflexivity]. rewrite (Hc mdl Hm). apply Hs. exact E.
+  Qed.
+
+  (* what a call returns as a function of the observational state only (written without any cache) *)
+  Definition outcome_c (o : option model * dict) (c : ccall data aux) : res out :=
+    let '(x, a, n, k) := c in
+    match fst o with
+    | None => Exn
+    | Some mdl => match fst (block_loop k 0 n []) with
+                  | Exn => Exn
+                  | Ok _ => Ok (outc mdl (snd o) (norm x) a (costf mdl a))
+                  end
+    end.
+
+  Lemma transform_c_outcome rep mask x a n k (cw : cworld) : sound -> cache_ok cw ->
+    fst (fst (transform_c rep mask x a n k cw)) = outcome_c (obs model mask (c_w model aux cost cw)) (x, a, n, k).
+  Proof.
+    intros Hs Hc. unfold K20_History.transform_c, outcome_c, K20_History.obs. cbn [fst snd].
+    destruct (mdl_of cw) as [mdl|] eqn:Em; [|reflexivity].
+    rewrite (cost_used_ok cw mdl a Hs Hc Em).
+    pose proof (single_outcome data model out (fun m d y => outc m d y a (costf mdl a)) norm cachef rep mask
+                               (c_w model aux cost cw) (x, n, k)) as H.
+    unfold K20_History.single in H.
+    destruct (transform data model out (fun m d y => outc m d y a (costf mdl a)) norm cachef rep mask x n k
+                        (c_w model aux cost cw)) as [[r xa] w'].
+    cbn [fst] in *. rewrite H. unfold outcome_of, K20_History.obs. cbn [fst snd]. rewrite Em. reflexivity.
+  Qed.
+
+  Lemma transform_c_state rep mask x a n k (cw : cworld) : sound -> cache_ok cw ->
+    cache_ok (snd (transform_c rep mask x a n k cw)) /\
+    obs model mask (c_w model aux cost (snd (transform_c rep mask x a n k cw))) = obs model mask (c_w model aux cost cw).
+  Proof.
+    intros Hs Hc. unfold K20_History.transform_c.
+    destruct (mdl_of cw) as [mdl|] eqn:Em; [|cbn [snd]; auto].
+    set (v := cost_used mdl (c_kc model aux cost cw) a).
+    pose proof (transform_obs data model out (fun m d y => outc m d y a v) norm cachef rep mask x n k
+                              (c_w model aux cost cw)) as Ho.
+    destruct (transform data model out (fun m d y => outc m d y a v) norm cachef rep mask x n k
+                        (c_w model aux cost cw)) as [[r xa] w'].
+    cbn [snd c_w] in *. split; [|exact Ho].
+    assert (Hm : e_model model (w_est model w') = Some mdl).
+    { unfold K20_History.obs in Ho. injection Ho as Ho1 _. rewrite Ho1. exact Em. }
+    unfold cache_ok in *. cbn [c_kc c_w].
+    destruct (c_kc model aux cost cw) as [[a0 v0]|] eqn:Ek.
+    - destruct (valid a0 a) eqn:Ev.
+      + intros m Hm'. rewrite Hm in Hm'. injection Hm' as <-. apply Hc. exact Em.
+      + intros m Hm'. rewrite Hm in Hm'. injection Hm' as <-. unfold v, K20_History.cost_used. rewrite Ev. reflexivity.
+    - intros m Hm'. rewrite Hm in Hm'. injection Hm' as <-. reflexivity.
+  Qed.
+
+  Lemma single_c_outcome rep mask (cw : cworld) c : sound ->
+    single_c rep mask cw c = outcome_c (obs model mask (c_w model aux cost cw)) c.
+  Proof.
+    intros Hs. destruct c as [[[x a] n] k]. unfold K20_History.single_c.
+    rewrite transform_c_outcome; [reflexivity|exact Hs|exact I].
+  Qed.
+
+  Lemma history_c rep mask : sound -> forall cs (cw : cworld), cache_ok cw ->
+    map snd (run_history_c rep mask cw cs) = map (single_c rep mask cw) cs.
+  Proof.
+    intros Hs. induction cs as [|[[[x a] n] k] cs IH]; intros cw Hc; [reflexivity|].
+    cbn [K20_History.run_history_c].
+    pose proof (transform_c_outcome rep mask x a n k cw Hs Hc) as Hr.
+    pose proof (transform_c_state rep mask x a n k cw Hs Hc) as [Hc' Ho].
+    destruct (transform_c rep mask x a n k cw) as [[r xa] cw'] eqn:E. cbn [fst snd] in *.
+    cbn [map snd]. f_equal.
+    - rewrite (single_c_outcome rep mask cw (x, a, n, k) Hs). exact Hr.
+    - rewrite (IH cw' Hc'). apply map_ext. intros c. rewrite !single_c_outcome by exact Hs. rewrite Ho. reflexivity.
+  Qed.
+
+  (* a validity test that implies equality of the keys is sound *)
+  Lemma valid_eq_sound : (forall a0 a, valid a0 a = true -> a0 = a) -> sound.
+  Proof. intros H mdl a0 a E. rewrite (H a0 a E). reflexivity. Qed.
+
+  (* a fit that drops the cache establishes the invariant whatever the cache held before *)
+  Lemma fit_c_reset rep mask x n k (cw : cworld) : cache_ok (snd (fit_c true rep mask x n k cw)).
+  Proof.
+    unfold K20_History.fit_c.
+    destruct (fit data model fitf norm cachef rep mask x n k (c_w model aux cost cw)) as [[r xa] w']. exact I.
+  Qed.
+End ProofsC.
